@@ -8,6 +8,7 @@ import (
 	"fmt"
 	"math/big"
 	"strconv"
+	"strings"
 
 	square "github.com/celestiaorg/go-square/v2"
 	"github.com/celestiaorg/go-square/v2/inclusion"
@@ -388,6 +389,48 @@ func genC13(c *Ctx) {
 		c.add("counter", ops)
 		c.mark("counter-large:" + ops)
 		c.count(fmt.Sprintf("counter_large_2^%d", e))
+	}
+	// add / revert made exactly on a share boundary: the counter is filled to a boundary (>= 1 full share),
+	// then a unit of at least one whole share is added and reverted, then a small one is added
+	for i := 0; i < 40*c.scale; i++ {
+		l0 := alignedTxLen(0, 400+r.Intn(1500), 0)
+		big := 476 + r.Intn(3000)
+		if i%3 == 0 {
+			big = pick(r, []int{476, 477, 478, 954, 955, 956})
+		}
+		small := 1 + r.Intn(300)
+		hist := []string{"a" + s(l0), "a" + s(big), "r", "a" + s(small)}
+		if i%2 == 1 {
+			hist = []string{"a" + s(l0), "a" + s(big), "r", "a" + s(big), "r", "a" + s(small), "a" + s(big)}
+		}
+		cnt := share.NewCompactShareCounter()
+		css := share.NewCompactShareSplitter(share.TxNamespace, share.ShareVersionZero)
+		var surviving []int
+		for k, op := range hist {
+			if op == "r" {
+				cnt.Revert()
+				surviving = surviving[:len(surviving)-1]
+			} else {
+				l, _ := strconv.Atoi(op[1:])
+				cnt.Add(l)
+				surviving = append(surviving, l)
+			}
+			_ = k
+		}
+		total := 0
+		for _, l := range surviving {
+			_ = css.WriteTx(make([]byte, l))
+			total += l + len(uvarint(uint64(l)))
+		}
+		rem := total
+		if total >= 474 {
+			rem = (total - 474) % 478
+		}
+		ops := strings.Join(hist, ",")
+		c.check(css.Count() == cnt.Size() && cnt.Remainder() == rem, "CompactShareCounter", "size/remainder after add+revert on a share boundary differ from a splitter fed the surviving transactions", map[string]any{"ops": ops})
+		c.add("counter", ops)
+		c.mark("counter-boundary-revert:" + ops)
+		c.count("counter_boundary_revert")
 	}
 	// units beyond any real transaction (4- and 5-byte length prefixes, 2^28 and 2^35): counter arithmetic only,
 	// against the closed form computed with an independent varint length
